@@ -46,7 +46,7 @@ def fn_table(text):
         return bisect.bisect_right(starts, p)
     fns = []
 
-    def walk(lo, hi, modpath, implkey, trait_impl):
+    def walk(lo, hi, modpath, implkey, trait_impl, delegated=False):
         for it in split_items(text, m, lo, hi):
             if it.kind == 'mod' and it.body_lo >= 0:
                 walk(it.body_lo, it.body_hi, modpath + [it.name], '', None)
@@ -57,7 +57,7 @@ def fn_table(text):
                     ti = it.name.split(' for ')[0].split('<')[0].strip()
                 if it.kind == 'trait':
                     ti = 'decl:' + it.name
-                walk(it.body_lo, it.body_hi, modpath, key, ti)
+                walk(it.body_lo, it.body_hi, modpath, key, ti, '<Self as Next<f64>>::ens_value(' in text[it.body_lo:it.body_hi])
             elif it.kind == 'fn':
                 f = Fn()
                 f.module = '::'.join(modpath)
@@ -76,6 +76,7 @@ def fn_table(text):
                 lead = text[it.start:it.attr_end] + text[max(0, it.start - 80):it.start]
                 f.external = 'verifier::external' in lead or 'verifier::external' in attrs
                 f.trait_impl = trait_impl
+                f.delegated = delegated
                 fns.append(f)
     walk(start, end, [], '', None)
     return fns
